@@ -33,9 +33,10 @@ func IsInvalidType(t types.Type) bool {
 	return false
 }
 
-// IsSliceType returns true if the given type is a slice type.
+// IsSliceType returns true if the given type is a slice type,
+// including a named type whose underlying type is a slice.
 func IsSliceType(t types.Type) bool {
-	_, ok := t.(*types.Slice)
+	_, ok := t.Underlying().(*types.Slice)
 	return ok
 }
 
@@ -100,7 +101,7 @@ func PkgOf(t types.Type) *types.Package {
 
 // SliceElement returns the type of the element in a slice type.
 func SliceElement(t types.Type) types.Type {
-	if slice, ok := t.(*types.Slice); ok {
+	if slice, ok := t.Underlying().(*types.Slice); ok {
 		return slice.Elem()
 	}
 	return nil
